@@ -17,6 +17,8 @@ import (
 	"verif/harness/suites/mq"
 	"verif/harness/suites/parsers"
 	"verif/harness/suites/pipe"
+	"verif/harness/suites/pipeht"
+	"verif/harness/suites/pipestream"
 	"verif/harness/suites/q97"
 	"verif/harness/suites/rle"
 	t1s "verif/harness/suites/t1"
@@ -26,20 +28,22 @@ import (
 func main() {
 	parsers.MaybeChild() // re-executed as a decode worker by the C08/C09 suites
 	s := vhlib.Suites{}
-	rle.Register(s)       // C01
-	jpegll.Register(s)    // C02 C13
-	jpegls.Register(s)    // C03 C07 C14
-	j2ke2e.Register(s)    // C04 C05 C06 C12 C19 (end-to-end oracles)
-	parsers.Register(s)   // C08 C09
-	contract.Register(s)  // C10 C18
-	dct.Register(s)       // C11 C15
-	q97.Register(s)       // C12
-	ht.Register(s)        // C06
-	framing.Register(s)   // C16 C17
-	j2kblocks.Register(s) // C20 (RCT)
-	dwt.Register(s)       // C20 (5/3 DWT)
-	mq.Register(s)        // C20 C16 C08 (MQ coder)
-	t1s.Register(s)       // C20 (EBCOT T1)
-	pipe.Register(s)      // C04 (composed reversible pipeline)
+	rle.Register(s)        // C01
+	jpegll.Register(s)     // C02 C13
+	jpegls.Register(s)     // C03 C07 C14
+	j2ke2e.Register(s)     // C04 C05 C06 C12 C19 (end-to-end oracles)
+	parsers.Register(s)    // C08 C09
+	contract.Register(s)   // C10 C18
+	dct.Register(s)        // C11 C15
+	q97.Register(s)        // C12
+	ht.Register(s)         // C06
+	framing.Register(s)    // C16 C17
+	j2kblocks.Register(s)  // C20 (RCT)
+	dwt.Register(s)        // C20 (5/3 DWT)
+	mq.Register(s)         // C20 C16 C08 (MQ coder)
+	t1s.Register(s)        // C20 (EBCOT T1)
+	pipe.Register(s)       // C04 (composed reversible pipeline)
+	pipestream.Register(s) // C16 C04 (walker + parser model on the composed codestream)
+	pipeht.Register(s)     // C06 (HT block coder composed into the pipeline)
 	vhlib.Main(s)
 }
